@@ -22,7 +22,7 @@ def desc_bytes(desc):
         for mip in desc["mips"]:
             mips.append([blk(n + i, r) for i, r in enumerate(mip)])
             n += len(mip)
-        return sqpack.texture_entry(rle_to_bytes(desc["header"]), mips)
+        return sqpack.texture_entry(rle_to_bytes(desc["header"]), mips, desc.get("_gaps"), desc.get("_order"))
     if k == "mdl":
         n = [0]
 
